@@ -114,10 +114,21 @@ func (cfg frozenConfig) MarshalIndent(val interface{}, prefix, indent string) ([
 	return encoder.EncodeIndented(val, prefix, indent, cfg.encoderOpts)
 }
 
+// decOpts returns the decoder options of the frozen Config.
+// UseInt64 and UseNumber exclude each other (decoder.SetOptions panics when given both):
+// as with Decoder.UseNumber(), which clears UseInt64, UseNumber takes precedence.
+func (cfg frozenConfig) decOpts() decoder.Options {
+	opts := cfg.decoderOpts
+	if opts&decoder.OptionUseNumber != 0 {
+		opts &^= decoder.OptionUseInt64
+	}
+	return opts
+}
+
 // UnmarshalFromString is implemented by sonic
 func (cfg frozenConfig) UnmarshalFromString(buf string, val interface{}) error {
 	dec := decoder.NewDecoder(buf)
-	dec.SetOptions(cfg.decoderOpts)
+	dec.SetOptions(cfg.decOpts())
 	err := dec.Decode(val)
 
 	/* check for errors */
@@ -143,7 +154,7 @@ func (cfg frozenConfig) NewEncoder(writer io.Writer) Encoder {
 // NewDecoder is implemented by sonic
 func (cfg frozenConfig) NewDecoder(reader io.Reader) Decoder {
 	dec := decoder.NewStreamDecoder(reader)
-	dec.SetOptions(cfg.decoderOpts)
+	dec.SetOptions(cfg.decOpts())
 	return dec
 }
 
